@@ -147,6 +147,17 @@ class Compiled(object):
             items = items[:-1]
         self.groups = {}          # group index -> (offset, width) when fixed
         self.groupnames = dict(tree.state.groupdict)
+        self.tail_group_width = None
+        self.tail_re = None
+        self.prefix_nullable = False
+        if items and items[-1][0] is sre_c.SUBPATTERN and items[-1][1][0] == 1:
+            _r, _w = self.seq(list(items[-1][1][3]), None)
+            self.tail_group_width = _w
+            self.tail_re = _r
+            self.groups = {}
+            # everything before the tail group can match the empty string (e.g. \d*): an unanchored search then
+            # succeeds exactly when the tail group matches at the end of the subject
+            self.prefix_nullable = all(op in (sre_c.MAX_REPEAT, sre_c.MIN_REPEAT) and arg[0] == 0 for op, arg in items[:-1])
         self.re, self.width = self.seq(items, 0)
 
     def seq(self, items, offset):
@@ -224,7 +235,20 @@ class Compiled(object):
             r = z3.Concat(r, z3.Option(z3.Re(z3.StringVal('\n'))))
         return z3.InRe(s, r)
 
+    def tail_search_parts(self, s):
+        """(matches at the very end, matches before one trailing newline) for an end-anchored search whose only
+        constraint is its fixed-width tail group"""
+        w = self.tail_group_width
+        n = z3.Length(s)
+        at_end = z3.And(n >= w, z3.InRe(z3.SubString(s, n - w, w), self.tail_re))
+        before_nl = z3.And(z3.BoolVal(bool(self.dollar)), n >= w + 1, z3.SubString(s, n - 1, 1) == z3.StringVal('\n'),
+                           z3.InRe(z3.SubString(s, n - 1 - w, w), self.tail_re))
+        return at_end, before_nl
+
     def search_cond(self, s):
+        if self.anchored_end and not self.anchored_start and self.tail_group_width and self.prefix_nullable:
+            a, b = self.tail_search_parts(s)
+            return z3.Or(a, b)
         r = self.re
         if not self.anchored_start:
             r = z3.Concat(z3.Star(ANYCHAR), r)
@@ -315,16 +339,63 @@ def install(world):
         else:
             yield st, SV(ex.uf('re_escape', StrS, StrS)(ex.term(a, 'S')), STR)
 
+    def strptime(ex, st, args, kwargs, fr):
+        # datetime.strptime(text, fmt): ASSUMED contract - acceptance and value are functions of (text, format)
+        from .tys import ObjT
+        v, f = ex.term(args[0], 'S'), ex.term(args[1], 'S')
+        ok = ex.uf('strptime_ok', StrS, StrS, BoolS)(v, f)
+        for st1, b in ex.branch(st, ok):
+            if b:
+                yield st1, SV(ex.uf('strptime_val', StrS, StrS, IntS)(v, f), ObjT('DateTime'))
+            else:
+                yield ex.raise_(st1, ValueError, 'time data does not match format')
+
+    def strftime(ex, st, args, kwargs, fr):
+        # datetime.strftime(value, fmt): ASSUMED - a function of (value, format)
+        v = ex.term(args[0], 'V')
+        yield st, SV(ex.uf('strftime', ex.term(args[0], 'V').sort(), StrS, StrS)(v, ex.term(args[1], 'S')), STR)
+
+    world.specfuncs['ext:strftime'] = strftime
+    world.specfuncs['ext:date.strftime'] = strftime
+    world.specfuncs['ext:strptime'] = strptime
     world.specfuncs['ext:re.escape'] = re_escape
     world.specfuncs['ext:re.match'] = re_match
     world.specfuncs['ext:re.search'] = re_search
 
 
 class SearchV(object):
-    """successful unanchored search: only truthiness is available"""
+    """successful unanchored search.  Groups are available when the pattern is end-anchored (`$`) and the group is
+    the fixed-width tail of the pattern: it is then the suffix of the subject (before one trailing newline, which `$`
+    tolerates)."""
 
     def __init__(self, comp, s):
         self.comp, self.s = comp, s
 
+    def suffix_group(self):
+        comp = self.comp
+        w = getattr(comp, 'tail_group_width', None)
+        if not (comp.anchored_end and w):
+            raise OutOfReach('groups of an unanchored regex search')
+        if not comp.prefix_nullable:
+            raise OutOfReach('suffix group of a search with a constraining prefix')
+        n = z3.Length(self.s)
+        at_end, before_nl = comp.tail_search_parts(self.s)
+        # CPython's search returns the leftmost match; a match ending before a trailing newline starts further left
+        # than one ending at the very end only if both exist - then the leftmost start wins: the one before the newline
+        end = z3.If(before_nl, n - 1, n)
+        return SV(z3.SubString(self.s, end - w, w), STR)
+
     def match_obj_attr(self, ex, st, attr):
-        raise OutOfReach('groups of an unanchored regex search')
+        from .calls import EngineCallable
+        if attr == 'groups':
+            def call(ex, st, args, kwargs, fr):
+                yield st, SV(None, Ty('pytuple'), (self.suffix_group(),) + tuple(mk(None) for _ in range(0)))
+            return st, mk(EngineCallable(call))
+        if attr == 'group':
+            def call(ex, st, args, kwargs, fr):
+                if len(args) == 1 and args[0].is_py and args[0].py == 1:
+                    yield st, self.suffix_group()
+                else:
+                    raise OutOfReach('search group form')
+            return st, mk(EngineCallable(call))
+        raise OutOfReach('match object attribute %s' % attr)
